@@ -862,6 +862,51 @@ func c16Deviations(s c16Seed, thorough bool, fn func(desc string, x []byte)) {
 							x := append(append(buf[:0], b[:hdr]...), ebspref.Escape(w.Bytes(true))...)
 							fn(fmt.Sprintf("replace the ue code at rbsp bit %d by ue(%d)", off, v), x)
 						}
+						// a count field made large AND enough input behind it for the loop it controls to run long: the code
+						// replaced by ue(255) (thorough: also ue(1000)), k <= 16 (thorough: 32; seeds whose deviation adds reference picture sets: 96) of the following bits kept, then 6000 bytes of ones (every later flag set,
+						// every later ue(v) zero) - repetition structures whose state builds up over hundreds of rounds
+						// (parameter-set seeds whose deviation is of their own level: the others repeat the base parameter set;
+						// these long inputs go to the parsers of the seed's own kind only)
+						own := strings.HasSuffix(s.Name, " base") || strings.Contains(s.Name, " sps sps.") || strings.Contains(s.Name, " pps pps.")
+						maxKeep, bigs := 16, []uint64{255}
+						if thorough {
+							maxKeep, bigs = 32, []uint64{255, 1000}
+						}
+						if strings.Contains(s.Name, "strps") || (thorough && strings.Contains(s.Name, "long_term")) {
+							maxKeep = 96 // the deviation itself adds reference picture sets: keep enough bits to include them
+						}
+						pfx := ""
+						for _, k := range [][2]string{{"avc sps ", "avc.ParseSPSNALUnit"}, {"avc pps ", "avc.ParsePPSNALUnit"}, {"hevc sps ", "hevc.ParseSPSNALUnit"}, {"hevc pps ", "hevc.ParsePPSNALUnit"}} {
+							if strings.HasPrefix(s.Name, k[0]) {
+								pfx = k[1]
+							}
+						}
+						if own && pfx != "" {
+							for _, big := range bigs {
+								for keep := 0; keep <= maxKeep && end+keep <= len(rbsp)*8; keep++ {
+									var w ebspref.Bits
+									for k := 0; k < off; k++ {
+										w.Put(bit(k), 1)
+									}
+									w.PutUE(big)
+									for k := end; k < end+keep; k++ {
+										w.Put(bit(k), 1)
+									}
+									head := ebspref.Escape(w.Bytes(true))
+									x := make([]byte, 0, hdr+len(head)+6000)
+									x = append(append(x, b[:hdr]...), head...)
+									if n := len(x); w.Len()%8 != 0 {
+										x[n-1] |= byte(0xff) >> uint(w.Len()%8) // complete the last partial byte with ones
+									}
+									for k := 0; k < 6000; k++ {
+										x = append(x, 0xff)
+									}
+									c16TargetPrefix = pfx
+									fn(fmt.Sprintf("replace the ue code at rbsp bit %d by ue(%d), keep %d bits, then 6000 bytes of ones", off, big, keep), x)
+									c16TargetPrefix = ""
+								}
+							}
+						}
 					}
 				}
 			}
@@ -897,6 +942,10 @@ func c16Trace(target, desc string, x []byte, ord int64, tidx int) {
 }
 
 // c16Eval feeds x to every target; perCall selects per-call tracing (careful mode on one input).
+// c16TargetPrefix, when set by the generator of a deviation family, restricts the next input to the targets whose name
+// starts with it (workers evaluate one seed at a time, sequentially).
+var c16TargetPrefix string
+
 func c16Eval(targets []c16Target, only string, desc string, x []byte, perCall bool, rep *c16Report, seen map[string]int, seedName string) {
 	ord := rep.Inputs
 	rep.Inputs++
@@ -906,6 +955,9 @@ func c16Eval(targets []c16Target, only string, desc string, x []byte, perCall bo
 	for i := range targets {
 		t := &targets[i]
 		if only != "" && t.Name != only {
+			continue
+		}
+		if c16TargetPrefix != "" && only == "" && !strings.HasPrefix(t.Name, c16TargetPrefix) {
 			continue
 		}
 		if t.OnlySeed != "" && only == "" && t.OnlySeed != seedName {
